@@ -100,6 +100,8 @@ func verifAssert(c bool, label string) {
 	}
 }
 
+func verifProbe(key string, val int) { fmt.Printf("VERIF-PROBE: %s=%d\n", key, val) }
+
 func verifReach(label string) {
 	fmt.Println("VERIF-REACH: " + label)
 }
